@@ -268,3 +268,48 @@ class Explorer:
                 continue
             res.bounded = bool(p.bounded)
             report.results.append(res)
+
+
+_PROBE_COUNT = [0]
+
+
+def probe(body, max_paths=400):
+    """Explore ``body()`` on all its paths under the current path condition
+    *without* forking the current path.  Returns the list of Outcomes.  Used
+    by contract stubs that only need to know whether a callee can raise."""
+    outer = sym._Cur.path
+    _PROBE_COUNT[0] += 1
+    tag = f'probe{len(outer.taken)}_{outer.ghost.setdefault("nprobes", 0)}_'
+    outer.ghost['nprobes'] += 1
+    outs = []
+    pending = [[]]
+    n = 0
+    try:
+        while pending:
+            n += 1
+            if n > max_paths:
+                raise Unsupported('probe path budget exhausted')
+            p = Path(pending.pop(), name_prefix=tag)
+            for c in outer.pc:
+                p.pc.append(c)
+                p.solver.add(c)
+            p.ghost['lazy_ids'] = list(outer.ghost.get('lazy_ids', []))
+            set_cur(p)
+            n_outer = len(outer.pc)
+            try:
+                try:
+                    o = Outcome('return', body())
+                except PyRaise as e:
+                    o = Outcome('raise', e.value, e.where)
+                # what this path assumed beyond the outer path condition
+                o.extra_pc = list(p.pc[n_outer:])
+                outs.append(o)
+            except PathAbort:
+                pass
+            pending.extend(p.pending)
+            for b in p.bounded:
+                if b not in outer.bounded:
+                    outer.bounded.append(b)
+    finally:
+        set_cur(outer)
+    return outs
